@@ -15,7 +15,7 @@ RULE = ("(a) bounded-exhaustive: every string up to length 6 (quick) / 8 (thorou
         "create_release_id raises ValueError exactly when a reference predicate rejects a part. Non-trivial: (a) string of "
         "length >= 2, (b) short contains a dash or type != ga or a base product is present, (c) at least one part invalid. "
         "Sub-check (a) is exhaustive for its bound.")
-ASSUMPTIONS = ["'other' characters are represented by '_' (and ' ' in sub-check c); newline handling of the patterns is not asserted"]
+ASSUMPTIONS = ["'other' characters are represented by '_', a non-ASCII digit, a non-ASCII letter and the line break (and ' ' in sub-check c); what follows the first character of a free-form version is one line of text (the pattern's '.'); a line break as the first character counts as 'not a digit'"]
 FLOORS = {"distinct_nontrivial": 2000, "roundtrip": 300, "refusal:refused": 200}
 
 ALPHABET = "aA1-.@_"
@@ -35,8 +35,8 @@ def ref_short(s):
 
 
 def ref_version(s):
-    """dot-separated decimal integers, or any non-empty string not starting with a digit"""
-    if not s:
+    """dot-separated decimal integers, or any non-empty single-line string not starting with a digit"""
+    if not s or "\n" in s[1:]:      # what follows the first character is one line of text
         return False
     if not ("0" <= s[0] <= "9"):
         return True
@@ -75,6 +75,7 @@ _short = st.one_of(
 _version = st.one_of(
     st.sampled_from(["7", "7.2", "20", "1.0.0", "rawhide", "Rawhide", "f.1", "2.4", "007", "ga", "eus", "x.fast", "updates", "testing", "1.aus"]).filter(ref_version),
     st.sampled_from(["rawhide ", " x", "Branched\t", " ", "a b ", ".", "_", "X ", "~"]),     # free-form means free-form: blanks at the edges included
+    st.sampled_from(["{version}", "{short}", "{}", "{0}", "a{b", "}{", "{{x}}", "%s", "%(short)s", "%%", "\\1", "\\g<0>", "$1", "${x}", "<x>", "`x`", "x'y", 'x"y', "#x", ";x"]),   # text other layers give a meaning to
     st.lists(st.integers(0, 999).map(str), min_size=1, max_size=4).map(".".join),
     st.builds(lambda a, b: a + b, st.sampled_from(list("abzRX_.~+ ")), st.text(st.sampled_from(list("abzXY019._+~ ")), max_size=6)),
 )
@@ -114,7 +115,7 @@ def roundtrip_case(case):
 
 
 # ---- (c) refusal agreement ---------------------------------------------------------------------------------------
-_any = st.one_of(st.text(st.sampled_from(list("abA19-.@_ ")), max_size=6), _short, _version, _type)
+_any = st.one_of(st.text(st.sampled_from(list("abA19-.@_ \n")), max_size=6), _short, _version, _type, st.sampled_from(["f\n", "1\n", "ga\n", "rawhide\n", "\nf", "7.2\n"]))
 refusal_strategy = st.fixed_dictionaries({"short": _any, "version": _any, "type": _any, "bp": st.one_of(st.none(), st.tuples(_any, _any, _any))})
 
 
@@ -151,7 +152,7 @@ def run(ctx):
     ctx.sweep("predicates", all_strings(maxlen), predicate_case, exhaustive=True)
     ctx.sub("predicates").notes.append("all strings up to length %d over %r" % (maxlen, ALPHABET))
     # 'other' characters that LOOK like members of the documented classes: a non-ASCII decimal digit, a non-ASCII letter
-    wide = "a1-.\u0663\u00e9\uff14"
+    wide = "a1-.\u0663\u00e9\uff14\n"
     ctx.sweep("predicates-non-ascii", ("".join(t) for n in range(1, (6 if ctx.thorough else 5) + 1) for t in itertools.product(wide, repeat=n)), predicate_case, exhaustive=True)
     ctx.sub("predicates-non-ascii").notes.append("all strings up to length %d over %r" % (6 if ctx.thorough else 5, wide))
 
